@@ -527,5 +527,5 @@ class C03(Prop):
         return [FrameResultCorr(), ManagerCorr()]
 
 
-READY = False
+READY = True
 PROP = C03()
